@@ -33,7 +33,8 @@ ASSUMPTIONS = ["statistical clauses are judged at 7 sigma (two-sided 2.6e-12 per
                "own sigma-clipping (median centre, 3 sigma, 5 iterations) compared at 1e-9"]
 PROBES = ["first_noise_on_empty", "later_noise_reestimated", "zero_data_then_noise", "table_share_index", "table_independent",
           "shipped_table", "truncated_floor_checked", "moment_test_chi2", "moment_test_gaussian", "half_integer_resolution",
-          "stream_quadrature", "array_background_quadrature", "signal_before_noise", "preloaded_frame"]
+          "stream_quadrature", "array_background_quadrature", "signal_before_noise", "preloaded_frame",
+          "estimates_not_observed_after_op"]
 
 
 def generate(rng, tier):
@@ -54,18 +55,19 @@ def generate(rng, tier):
         if r < 0.4:
             kind = rng.choice(["chi2", "chi2", "gaussian", "normal", "truncated"])
             ops.append({"op": "noise", "kind": kind, "x_mean": rng.choice([1.0, 10.0, 5.5, 1e5, 0.01]),
-                        "x_std": rng.choice([1.0, 0.5, 3.0, 250.0]), "x_min": rng.choice([0.0, 9.0, -1.0, 5.0])})
+                        "x_std": rng.choice([1.0, 0.5, 3.0, 250.0]), "x_min": rng.choice([0.0, 9.0, -1.0, 5.0]),
+                        "observe": rng.random() < 0.6})
         elif r < 0.62:
             n = rng.choice([1, 2, 3, 5, 8])
             ops.append({"op": "from_obs", "kind": rng.choice(["chi2", "gaussian", "gaussian"]), "n": n, "n_std": rng.choice([n, n, n + 2]),
                         "with_min": rng.random() < 0.5, "share": rng.random() < 0.6, "tseed": rng.randrange(1 << 30),
-                        "shipped": rng.random() < 0.12})
+                        "shipped": rng.random() < 0.12, "observe": rng.random() < 0.6})
         elif r < 0.72:
-            ops.append({"op": "zero"})
+            ops.append({"op": "zero", "observe": rng.random() < 0.5})
         elif r < 0.80:
-            ops.append({"op": "inject", "sig": F.gen_signal(rng, spec["geom"], allow_box=True)})
+            ops.append({"op": "inject", "sig": F.gen_signal(rng, spec["geom"], allow_box=True), "observe": rng.random() < 0.5})
         elif r < 0.86:
-            ops.append({"op": "copy"})
+            ops.append({"op": "copy", "observe": rng.random() < 0.5})
         else:
             ops.append({"op": "snr", "s": rng.choice([1.0, 10.0, 30.0, 0.5, 1e3])})
     streams = None
@@ -165,6 +167,10 @@ def execute(sc, ctx):
     if spec["route"] != "sizes":
         ctx.hit("preloaded_frame")
     pool = [fr]
+    # Reading the estimates is itself an operation of the schedule (op["observe"]): a check that looked at them after
+    # every step would hide state that is only wrong between two observations.  Emptiness is therefore tracked by the
+    # model, not read from the frame.
+    model_empty = {id(fr): not np.any(fr.data)}
     nnoise = 0
     had_signal_only = False
     after_zero = False
@@ -174,7 +180,10 @@ def execute(sc, ctx):
         kind = op["op"]
         ctx.op(kind)
         N = fr.data.size
-        empty = (fr.noise_mean == 0 and fr.noise_std == 0)
+        empty = model_empty[id(fr)]
+        observe = op.get("observe", True)
+        if not observe:
+            ctx.hit("estimates_not_observed_after_op")
         data_before = np.array(fr.data, copy=True)
         others = [np.array(f.data, copy=True) for f in pool[:-1]]
         try:
@@ -215,15 +224,24 @@ def execute(sc, ctx):
                     dist = "chi2" if nk == "chi2" else ("truncated" if (op["with_min"] or op["shipped"]) else "gaussian")
                     kinds.add("obs:" + dist)
                 ret = np.asarray(ret)
-                ctx.event(kind, ret, float(fr.noise_mean), float(fr.noise_std))
+                ctx.event(kind, ret)
                 nnoise += 1
+                model_empty[id(fr)] = False
                 # the returned array is exactly what was added
                 if not ctx.check(ret.shape == data_before.shape and
                                  np.array_equal(fr.data, (data_before.astype(np.float64) + ret).astype(data_before.dtype)),
                                  "added", "C11/returned_is_not_what_was_added/%s" % dist, "data_after != data_before + returned noise"):
                     return
-                nm, ns = float(fr.noise_mean), float(fr.noise_std)
-                if empty:
+                if not observe:
+                    # nothing read: only what the call returned is judged
+                    if kind == "from_obs":
+                        x_mean = x_std = x_min = None
+                    nm = ns = None
+                else:
+                    nm, ns = float(fr.noise_mean), float(fr.noise_std)
+                if not observe:
+                    pass
+                elif empty:
                     ctx.hit("first_noise_on_empty")
                     if after_zero:
                         ctx.hit("zero_data_then_noise")
@@ -277,8 +295,10 @@ def execute(sc, ctx):
                 after_zero = False
             elif kind == "zero":
                 fr.zero_data()
-                ok = ctx.check(not np.any(fr.data) and fr.noise_mean == 0 and fr.noise_std == 0 and fr.data.shape == data_before.shape,
-                               "zero", "C11/zero_data", "zero_data left data or estimates behind")
+                model_empty[id(fr)] = True
+                ok = ctx.check(not np.any(fr.data) and fr.data.shape == data_before.shape, "zero", "C11/zero_data", "zero_data left data behind")
+                if observe:
+                    ctx.check(fr.noise_mean == 0 and fr.noise_std == 0, "zero", "C11/zero_data", "zero_data left estimates behind")
                 after_zero = True
                 had_signal_only = False
             elif kind == "inject":
@@ -286,17 +306,20 @@ def execute(sc, ctx):
                 if sig["opts"].get("integrate_f_profile") and sig["bp"]["kind"] == "array":
                     sig = dict(sig, bp={"kind": "none"})
                 path, tp, fp, bpp = F.signal_components(sig, g, fr.tchans, fr.fmin, fs_len=fr.fchans)
-                est = (fr.noise_mean, fr.noise_std)
+                est = (fr.noise_mean, fr.noise_std) if observe else None
                 fr.add_signal(path, tp, fp, bpp, **sig["opts"])
-                ctx.check((fr.noise_mean, fr.noise_std) == est, "estimates", "C11/estimates/changed_by_injection", "")
+                if observe:
+                    ctx.check((fr.noise_mean, fr.noise_std) == est, "estimates", "C11/estimates/changed_by_injection", "")
                 if empty:
                     had_signal_only = True
                     ctx.hit("signal_before_noise")
             elif kind == "copy":
                 c = fr.copy()
-                ctx.check(c.noise_mean == fr.noise_mean and c.noise_std == fr.noise_std and np.array_equal(c.data, fr.data), "copy",
-                          "C11/copy_differs", "")
+                ctx.check(np.array_equal(c.data, fr.data), "copy", "C11/copy_differs", "")
+                if observe:
+                    ctx.check(c.noise_mean == fr.noise_mean and c.noise_std == fr.noise_std, "copy", "C11/copy_differs", "")
                 pool.append(c)
+                model_empty[id(c)] = model_empty[id(fr)]
             elif kind == "snr":
                 s = op["s"]
                 if fr.noise_std == 0:
